@@ -696,7 +696,8 @@ func (repo *Repository) GetHeaders(ctx context.Context,
 	result := make([]*wire.BlockHeader, 0, maxCount)
 	headersFile := -1
 	var headersData []*HeaderData
-	for height := startHeight; ; height++ {
+	lastHeight := repo.longest.Height() // the header files can hold headers above this that are no longer in the chain
+	for height := startHeight; height <= lastHeight; height++ {
 		at := repo.longest.AtHeight(height)
 		if at != nil {
 			result = append(result, at.Header)
